@@ -1,13 +1,14 @@
 PROPERTY = "C02"
 LEVEL = "proof"
-LEAN_MODULES = ["CifModel.Props.C02", "CifModel.Props.C02Doc"]
+LEAN_MODULES = ["CifModel.Props.C02", "CifModel.Props.C02Doc", "CifModel.Props.ReviewC02"]
 REQUIRED = ["CifModel.C02_text_protocol", "CifModel.C02_fold_line_progress", "CifModel.C02_text_total",
             "CifModel.C02_flags_semis", "CifModel.C02_char_text_roundtrip",
             "CifModel.C02_analysis_facts", "CifModel.C02_write_char_text",
             "CifModel.C02_value_presented", "CifModel.C02_value_roundtrip", "CifModel.C02_unquoted_stays_unquoted",
             "CifModel.C02_total", "CifModel.C02_total_no_tables", "CifModel.C02_line_bound",
             "CifModel.C02_bare_value", "CifModel.C02_parse_value_roundtrip", "CifModel.C02_parse_item_roundtrip",
-            "CifModel.C02_roundtrip_doc", "CifModel.C02_roundtrip_doc_instance", "CifModel.C02_roundtrip_doc_sample"]
+            "CifModel.C02_roundtrip_doc", "CifModel.C02_roundtrip_doc_instance", "CifModel.C02_roundtrip_doc_sample",
+            "CifModel.C02_roundtrip_doc_nested"]
 GEN = ["WriterConsts", "ErrCodes"]
 FAMILIES = ["decode", "writeval", "write"]
 TRUSTED_BASE = [
@@ -42,7 +43,7 @@ LEVEL_TEXT = ("Proof (partial): the line-folding / text-prefix protocol is prove
               "flags it derives (C02_char_text_roundtrip); fold_line is proved to make progress (never CIF_INTERNAL_ERROR). The writer and "
               "decode_text models are tied to /repo by translated constants (link lemmas) and byte-exact differential execution of cif_write "
               "on single values at chosen columns and on whole random CIFs, with a write -> cif_parse -> compare oracle on the real code.")
-LEVEL_NOTE = ("Whole-document round trip (C02_roundtrip_doc, every policy, one level of save frames), line bound and totality are proved about the "
+LEVEL_NOTE = ("Whole-document round trip (C02_roundtrip_doc, every policy, save frames nested to any depth — hypothesis frameN: a frame that holds frames needs a parser with max_frame_depth ≠ 1; instance with three levels C02_roundtrip_doc_nested), line bound and totality are proved about the "
               "models and checked per generated case by the implementation-level oracle. Trusted: Lean kernel, translator, harness/oracle, ICU "
               "output conventions, Model/Analyze of group gA.")
 TECHNIQUE = "Lean 4 proof about an executable model of the writer and of decode_text, tied to the sources by translated constants and byte-exact differential execution"
